@@ -11,5 +11,6 @@ def main (args : List String) : IO Unit :=
       | "cmp" :: a => (st, c16 a)
       | _ => (st, "bad-op"))
   | ["par"] => runLoop ({} : Driver.Run.Sys) Driver.Run.parStep
+  | ["seq"] => runLoop ({} : Driver.Run.SeqSys) Driver.Run.seqStep
   | ["serial"] => runLoop ({} : Driver.Run.SerialSys) Driver.Run.serStep
   | _ => IO.eprintln "usage: driver <mode>"
